@@ -1,9 +1,12 @@
 (** C12: refutations kept as findings; examples. *)
 From Verif Require Import Json Outcome Match PatIndex State Location SysOps CorrLoc CorrConc LocSpec GateProofs LockTable ConcSpec ConcProofs.
-(** D44: overlapping Adds to ONE id: 2 of the 6 interleavings of the two phases leave
-    memory and storage with different values, in both state kinds. *)
-Definition same_id_adds_can_diverge := same_id_adds_can_diverge_counterexample.
-Definition same_id_divergence_count := ConcProofs.same_id_divergence_count.
+(** (D44 is repaired: the memory update and the storage write of a write are one critical section
+    under the state's write lock; same_id_adds_never_diverge in C12.v replaces the former
+    same_id_adds_can_diverge_counterexample.  What the lock model says about the writers of the
+    code BEFORE the repair is kept as an example: the model is not vacuous.) *)
+Definition lock_model_not_vacuous := prerepair_adds_diverge_example.
+Definition a_schedule_of_two_adds_exists := same_id_adds_schedule_exists.
+Definition a_schedule_of_add_and_rem_exists := add_rem_schedule_exists.
 (** (D52 is repaired: the lock-table theorems of C12.v have no exception list left.) *)
 Definition oracle_accepts_somewhere := lin_example_linearizable.
 Definition oracle_rejects_somewhere := lin_example_not_linearizable.
